@@ -86,7 +86,7 @@ def gen_cases(tier, rng):
                 for _ in range(3 if tier == "quick" else 12):
                     nvals.add(rng.randrange(-(1 << 20), 1 << 20))
                     nvals.add(rng.randrange(-(1 << 63), 1 << 64))
-                forms = ["add", "sub", "index"]
+                forms = ["add", "sub", "index", "radd"]
                 kinds = IDX_KINDS if tier == "thorough" or pt in ("int", "ps", "long", "char") else ["int", "ulong", "llong", "schar", "ushort"]
                 for form in forms:
                     for k in kinds:
@@ -105,7 +105,7 @@ def gen_cases(tier, rng):
                     for k in ("int", "uint", "long", "ulong"):
                         for n in (0, 1, -1, to_end, to_end + 1, -idx - 1, 1 << 31, (1 << 32) + 1, 1 << 62):
                             if fits(k, n):
-                                for form in ("add", "sub", "index"):
+                                for form in ("add", "sub", "index", "radd"):
                                     cases.append("arith%s %s %s %d %s %d %s" % (cfg, pt, form, p, k, n, wrapk))
     if tier == "quick" and len(cases) > 60000:
         keep = [c for c in cases if c.startswith("stride")]
